@@ -75,6 +75,40 @@ Proof.
     + rewrite Hr, zlen_cons. lia.
 Qed.
 
+(* the scratch pad of a subnormal (first byte kept as it is) holds the non-zero
+   fraction: same decomposition *)
+Lemma scratch_spec_nz b0 T : ~ zeros (b0 :: T) ->
+  exists init mval zs,
+    b0 :: T = init ++ mval :: zs /\ zeros zs /\
+    zlen init = mstop_of (b0 :: T) /\ mval <> 0.
+Proof.
+  intros Hnz. unfold mstop_of.
+  destruct (last_nonzero_spec (b0 :: T) 0 0) as [[_ Hz]|(pre & x & post & Ht & Hx & Hz & Hr)].
+  - contradiction.
+  - exists pre, x, post. repeat split; try assumption. rewrite Hr. lia.
+Qed.
+
+(* the copy skips leading zero bytes and keeps the last byte: same value, and a
+   non-zero first byte whenever the value is not zero *)
+Lemma skip_lead_zeros_spec l : bytes_ok l ->
+  be_val (skip_lead_zeros l) = be_val l /\ bytes_ok (skip_lead_zeros l) /\
+  (l <> [] -> skip_lead_zeros l <> []) /\
+  (be_val l <> 0 -> hd 0 (skip_lead_zeros l) <> 0).
+Proof.
+  induction l as [|b tl IH]; intros Hok.
+  - cbn. repeat split; try assumption; intros; congruence.
+  - inversion Hok as [|? ? Hb Htl]; subst.
+    destruct tl as [|c tl'].
+    + cbn [skip_lead_zeros]. repeat split; try assumption; try congruence.
+      cbn [be_val hd]. unfold zlen. simpl. lia.
+    + cbn [skip_lead_zeros]. destruct (b =? 0) eqn:Eb.
+      * destruct (IH Htl) as (Hv & Hk & Hne & Hhd).
+        assert (Hb0 : b = 0) by lia. subst b.
+        replace (be_val (0 :: c :: tl')) with (be_val (c :: tl')) by (cbn [be_val]; lia).
+        repeat split; try assumption. intros _. apply Hne. congruence.
+      * repeat split; try assumption; try congruence. cbn [hd]. lia.
+Qed.
+
 (* ================================================================ *)
 (* 1c. shift count and the make-odd shift                            *)
 
